@@ -25,7 +25,7 @@ use kira::sound::static_sound::StaticSoundHandle;
 use kira::sound::streaming::{StreamingSoundData, StreamingSoundHandle, StreamingSoundSettings};
 use kira::sound::PlaybackState;
 use kira::track::{MainTrackBuilder, SendTrackBuilder, SendTrackHandle, SpatialTrackBuilder, SpatialTrackHandle, TrackBuilder, TrackHandle};
-use kira::{Decibels, Easing, Mapping, Mix, Panning, PlaybackRate, StartTime, Tween, Value};
+use kira::{Decibels, Easing, Frame, Mapping, Mix, Panning, PlaybackRate, StartTime, Tween, Value};
 
 use crate::hooks::DecState;
 use crate::jobj;
@@ -863,6 +863,100 @@ fn monitor_pairs(ctx: &mut Ctx) {
 				if (got - want).abs() > 1e-5 * want.max(1e-3) {
 					return Err(format!("tweener.set({t}, 5 s) followed {} by tweener.set({t}, instant): two callbacks later a volume mapped from it gives {} instead of {} — the second command was not applied", if same_interval { "in the same interval" } else { "one callback later" }, got, want, t = target));
 				}
+			}
+			// ---- a sound on a paused sub-track (or on a running child of one) still takes its commands at the next callback,
+			// one by one in the order they were issued: one command per interval, the handle acknowledges each, and after the
+			// track resumes the sound is in the state the LAST command asked for (commands saved up and read together when the
+			// track resumes would be applied in slot order instead)
+			{
+				let mut rig = base_rig(MainTrackBuilder::new());
+				rig.watch_alloc = false;
+				let nested = r.chance(0.4);
+				let mut outer = rig.mgr.add_sub_track(TrackBuilder::new()).map_err(|_| "t")?;
+				let mut inner = if nested { Some(outer.add_sub_track(TrackBuilder::new()).map_err(|_| "t2")?) } else { None };
+				let data = crate::probes::dc_sound(SR, 64, 0.1).loop_region(..);
+				let mut h = match inner.as_mut() {
+					Some(t) => t.play(data),
+					None => outer.play(data),
+				}
+				.map_err(|_| "play")?;
+				rig.callback(64);
+				outer.pause(inst());
+				rig.callback(64);
+				rig.callback(64);
+				let mut names = vec![];
+				let mut last = 1;
+				for _ in 0..r.usize_in(2, 4) {
+					last = if names.is_empty() { 0 } else { r.below(2) };
+					let want = if last == 0 {
+						h.pause(inst());
+						names.push("pause");
+						[PlaybackState::Pausing, PlaybackState::Paused]
+					} else {
+						h.resume(inst());
+						names.push("resume");
+						[PlaybackState::Resuming, PlaybackState::Playing]
+					};
+					rig.callback(64);
+					if !want.contains(&h.state()) {
+						return Err(format!("sound on a {}paused sub-track, commands [{}] one per interval: one callback after the last one the handle shows {:?} (command not taken at the start of the next callback)", if nested { "child of a " } else { "" }, names.join(", "), h.state()));
+					}
+				}
+				outer.resume(inst());
+				rig.callback(64);
+				rig.callback(64);
+				let o = rig.callback(64).to_vec();
+				let audible = o.iter().any(|x| *x != 0.0);
+				let want_state = if last == 0 { PlaybackState::Paused } else { PlaybackState::Playing };
+				if h.state() != want_state || audible != (last == 1) {
+					return Err(format!("sound on a {}paused sub-track, commands [{}] one per interval, then the track resumes: the sound is {:?} and {} - the last command issued says {:?}", if nested { "child of a " } else { "" }, names.join(", "), h.state(), if audible { "audible" } else { "silent" }, want_state));
+				}
+			}
+			// ---- a streaming sound's seek_by and seek_to written in the same interval: both are taken by the decoder's next step
+			// (seek_by first, seek_to second - as the static sound does), so playback continues at the seek_to target; there is
+			// exactly one jump and nothing surfaces a step later
+			if i % 4 == 0 {
+				let mut rig = base_rig(MainTrackBuilder::new());
+				rig.watch_alloc = false;
+				let n = 60000usize;
+				let frames = Arc::new((0..n).map(|i| Frame::from_mono((i + 1) as f32 / 131072.0)).collect::<Vec<_>>());
+				let (dec, _o) = ScriptedDecoder::new(frames, DecoderScript { sample_rate: SR, packets: vec![r.usize_in(100, 700)], ..Default::default() });
+				let mut h = rig.mgr.play(StreamingSoundData::from_decoder(dec).with_settings(StreamingSoundSettings::new().panning(Panning(-1.0)))).map_err(|_| "play streaming")?;
+				let d = crate::hooks::last_decoder().ok_or("decoder hook not observed")?;
+				rig.callback(256);
+				if d.wait_ahead(Duration::from_millis(500)) {
+					let target = r.usize_in(20000, 50000);
+					let amount = r.f64_in(0.2, 1.9);
+					let by_first = r.chance(0.5);
+					if by_first {
+						h.seek_by(amount);
+					}
+					h.seek_to((target as f64 + 0.25) / SR as f64);
+					if !by_first {
+						h.seek_by(amount);
+					}
+					let mut heard: Vec<i64> = vec![];
+					let mut settled = true;
+					for _ in 0..100 {
+						settled &= d.wait_ahead(Duration::from_millis(500));
+						let o = rig.callback(256).to_vec();
+						for f in o.chunks(2) {
+							if f[0] != 0.0 {
+								heard.push((f[0] as f64 / std::f64::consts::SQRT_2 * 131072.0).round() as i64 - 1);
+							}
+						}
+					}
+					if settled {
+						let jumps: Vec<(i64, i64)> = heard.windows(2).filter(|w| w[1] != w[0] + 1).map(|w| (w[0], w[1])).collect();
+						let ok = jumps.len() == 1 && jumps[0].1 == target as i64;
+						if !ok {
+							return Err(format!("streaming sound: seek_by({:.3} s) and seek_to(frame {}) written between the same two callbacks ({} first): the frames heard jump {:?} (from, to) - expected exactly one jump, to frame {} (both commands are taken by the decoder's next step, the absolute seek decides)", amount, target, if by_first { "seek_by" } else { "seek_to" }, jumps, target));
+						}
+					}
+				}
+				h.stop(inst());
+				rig.callback(64);
+				rig.callback(64);
 			}
 			// ---- a command written between play() and the sound's first callback is in effect in that callback, wherever it plays
 			{
